@@ -57,6 +57,23 @@ class MyStr(str):
     pass
 
 
+class FakeStr:
+    """hashable object whose __class__ claims to be str (a lazy-string / mock(spec=str) style proxy); type() tells the truth"""
+    def __init__(self, s=""):
+        self.s = s
+
+    __class__ = property(lambda self: str)
+
+    def __hash__(self):
+        return hash(("FakeStr", self.s))
+
+    def __eq__(self, other):
+        return type(other) is FakeStr and other.s == self.s
+
+    def __repr__(self):
+        return f"FakeStr({self.s!r})"
+
+
 class MyTuple(tuple):
     pass
 
